@@ -65,6 +65,10 @@ var noDefaults = map[string]bool{"GR4J": true, "DateGenerator": true, "Lag": tru
 // "defaults-heavy" draws so that not-configured branches are exercised systematically)
 var defaultBias = 0.125
 
+// physicalOnly: draw every parameter from its curated / documented range only (no branch-selecting switch values,
+// no catalogue defaults) -- for properties stated "for parameters in their physically meaningful ranges" (C10)
+var physicalOnly = false
+
 var intParams = map[string]bool{"DateGenerator.startDate": true, "DateGenerator.startMonth": true, "DateGenerator.startYear": true,
 	"DynamicSednetGully.YearDisturbance": true, "DynamicSednetGully.GullyEndYear": true,
 	"DynamicSednetGullyAlt.YearDisturbance": true, "DynamicSednetGullyAlt.GullyEndYear": true}
@@ -202,9 +206,9 @@ func genCase(r *rand.Rand, name string, nSets, nCells, nBlocks, T int) *modelCas
 				pv[s] = []float64{v}
 			default:
 				v := uni(r, rg.lo, rg.hi)
-				if sw, ok := switches[name][p.Name]; ok && r.Intn(3) == 0 {
+				if sw, ok := switches[name][p.Name]; ok && r.Intn(3) == 0 && !physicalOnly {
 					v = sw[r.Intn(len(sw))]
-				} else if !noDefaults[name] && r.Float64() < defaultBias {
+				} else if !noDefaults[name] && r.Float64() < defaultBias && !physicalOnly {
 					v = p.Default // catalogue defaults (often 0) select "not configured" branches
 				}
 				if intParams[name+"."+p.Name] {
